@@ -131,3 +131,136 @@ pub fn drive_deque(ops: &str, trace: &str) {
     }
     out.finish();
 }
+
+// ---------------------------------------------------------------- SortedDeque (C16)
+use sliding_deque::traits::SortedDequeItem;
+use sliding_deque::SortedDeque;
+
+/// Whole-item ordering convention: key first, erased flag/value least significant, so that
+/// marking an item erased never reorders it with respect to items with other keys.
+#[derive(Clone, Copy, Debug, PartialEq, Eq, PartialOrd, Ord)]
+pub struct WItem {
+    key: u8,
+    val: Option<std::num::NonZeroU8>,
+}
+
+impl SortedDequeItem for WItem {
+    fn mark_erased(&mut self) {
+        self.val = None;
+    }
+    fn is_erased(&self) -> bool {
+        self.val.is_none()
+    }
+}
+
+fn kv_item(k: u8, v: u8) -> (u8, Option<u8>) {
+    (k, if v == 0 { None } else { Some(v) })
+}
+fn kv_key(k: u8, _v: u8) -> u8 {
+    k
+}
+fn kv_back(i: &(u8, Option<u8>)) -> Value {
+    json!([i.0, i.1.unwrap_or(0)])
+}
+fn w_item(k: u8, v: u8) -> WItem {
+    WItem { key: k, val: std::num::NonZeroU8::new(v) }
+}
+fn w_key(k: u8, v: u8) -> WItem {
+    w_item(k, v)
+}
+fn w_back(i: &WItem) -> Value {
+    json!([i.key, i.val.map(|x| x.get()).unwrap_or(0)])
+}
+
+macro_rules! sorted_driver {
+    ($name:ident, $cont:ty, $mk:ident, $key:ident, $back:ident) => {
+        fn $name(run: &Run, out: &mut Trace) {
+            let mut d: SortedDeque<$cont> = Default::default();
+            out.emit(&json!({"ev":"reset","run":run.run,"kind":run.cfg["kind"],"mode":run.cfg["mode"]}));
+            let optv = |x: Option<<$cont as PushTruncateContainer>::Item>| match x {
+                Some(i) => $back(&i),
+                None => json!([]),
+            };
+            for op in &run.ops {
+                let ev = gets(op, "ev");
+                let r = guarded(|| -> Value {
+                    match ev {
+                        "push" => {
+                            d.push_back_or_panic($mk(geti(op, "k") as u8, geti(op, "v") as u8));
+                            json!([])
+                        }
+                        "find" => optv(d.find(&$key(geti(op, "k") as u8, geti(op, "v") as u8)).copied()),
+                        "remove" => optv(d.remove(&$key(geti(op, "k") as u8, geti(op, "v") as u8))),
+                        "pop_first" => optv(d.pop_first()),
+                        "pop_last" => optv(d.pop_last()),
+                        "clear" => {
+                            d.clear();
+                            json!([])
+                        }
+                        _ => panic!("harness: unknown sorted op {ev}"),
+                    }
+                });
+                let mut e = op.clone();
+                let o = e.as_object_mut().unwrap();
+                o.insert("run".into(), json!(run.run));
+                let (ret, pmsg) = match r {
+                    Ok(v) => (v, String::new()),
+                    Err(m) => (json!([]), m),
+                };
+                // observe (also after a panic: push_back_or_panic asserts before mutating)
+                let obs = guarded(|| {
+                    let iter: Vec<Value> = d.iter().map(|i| $back(i)).collect();
+                    let phys: Vec<Value> = d.verif_items().iter().map(|i| $back(i)).collect();
+                    let (consumed, clen) = d.verif_items().verif_rep();
+                    json!({"iter": iter, "first": optv(d.first().copied()), "last": optv(d.last().copied()),
+                           "empty": d.is_empty() as u8, "phys": phys, "consumed": consumed, "clen": clen})
+                });
+                o.insert("ret".into(), ret);
+                o.insert("panic".into(), json!(pmsg));
+                match obs {
+                    Ok(Value::Object(m)) => {
+                        o.insert("obs_panic".into(), json!(""));
+                        for (k, v) in m {
+                            o.insert(k, v);
+                        }
+                        out.emit(&e);
+                    }
+                    Ok(_) => unreachable!(),
+                    Err(msg) => {
+                        o.insert("obs_panic".into(), json!(msg));
+                        for k in ["iter", "first", "last", "phys"] {
+                            o.insert(k.into(), json!([]));
+                        }
+                        for k in ["empty", "consumed", "clen"] {
+                            o.insert(k.into(), json!(0));
+                        }
+                        out.emit(&e);
+                        return;
+                    }
+                }
+            }
+        }
+    };
+}
+
+sorted_driver!(sorted_kv_vec, Vec<(u8, Option<u8>)>, kv_item, kv_key, kv_back);
+sorted_driver!(sorted_kv_sv4, SmallVec<[(u8, Option<u8>); 4]>, kv_item, kv_key, kv_back);
+sorted_driver!(sorted_w_vec, Vec<WItem>, w_item, w_key, w_back);
+sorted_driver!(sorted_w_sv2, SmallVec<[WItem; 2]>, w_item, w_key, w_back);
+
+pub fn drive_sorted(ops: &str, trace: &str) {
+    let runs = read_runs(ops);
+    let mut out = Trace::create(trace);
+    for run in &runs {
+        let kind = run.cfg["kind"].as_str().unwrap_or("vec");
+        let mode = run.cfg["mode"].as_str().unwrap_or("kv");
+        match (mode, kind) {
+            ("kv", "vec") => sorted_kv_vec(run, &mut out),
+            ("kv", "sv") => sorted_kv_sv4(run, &mut out),
+            ("item", "vec") => sorted_w_vec(run, &mut out),
+            ("item", "sv") => sorted_w_sv2(run, &mut out),
+            _ => panic!("harness: unknown sorted cfg {mode}/{kind}"),
+        }
+    }
+    out.finish();
+}
